@@ -213,11 +213,61 @@ def run(pid, tier):
             else:
                 R.validated()
     if pid == "C07":
+        engine_traces(R, tier, recs, sd)
         import c07garb
         c07garb.run_into(R, tier)
     R.assumptions += ["the conforming grammar is my reading of the Norm (DESIGN 4.1); slots are spelled by harness/concretise.py",
                       "simulation part is seeded by VERIF_SEED"]
     return R.finish()
+
+
+def engine_traces(R, tier, recs, sd):
+    """direction B for the engine: statement traces of the repository's sample files and of a sample of the corpus
+    validated by TLC against EngineTrace.tla (Engine!Step explains every event; partition, well-formedness, depth)"""
+    import glob
+    import enginetrace
+    from common import REPO
+    traces, meta = [], {}
+    tid = 0
+    for f in sorted(glob.glob(os.path.join(REPO, "tests/rules/samples/*.[ch]"))):
+        try:
+            text = open(f).read()
+        except Exception:  # noqa
+            continue
+        tid += 1
+        t, o = enginetrace.record(text, tid, os.path.basename(f))
+        t["complete"] = False          # samples are arbitrary text: no claim about their final depth or token total
+        traces.append(t)
+        meta[tid] = ("sample", f, None)
+    r = rng("c07engine")
+    pick = r.sample(range(len(recs)), min(len(recs), 150 if tier == "quick" else 1500))
+    for j in pick:
+        rec, origin = recs[j]
+        name, text, _ = normgen.render(rec, sd * 7)
+        tid += 1
+        t, o = enginetrace.record(text, tid, name)
+        traces.append(t)
+        meta[tid] = ("corpus", origin, text)
+    try:
+        verdicts = enginetrace.validate(traces, name="enginetrace-C07")
+    except Exception as e:  # noqa
+        R.machinery(str(e))
+        return
+    for t, v in sorted(verdicts.items()):
+        kind, where, text = meta[t]
+        R.case(("engine-trace", t))
+        strict = [c for c in ("part", "wf") + (("depth",) if kind == "corpus" else ()) if v[c]]
+        if strict:
+            R.violation(dict(kind="engine_trace", source=kind, where=where, failing={c: v[c] for c in strict}, text=text,
+                             note="partition (n >= 1, sum = tokens), scope well-formedness or depth back at file level fails "
+                                  "on the recorded statement trace (EngineTrace.tla)"))
+            continue
+        R.validated()
+        if v["scope"] or v["lines"]:
+            R.soft(f"engine trace {kind} {os.path.basename(str(where))}: the scope chain / line counter departs from Engine.tla at event "
+                   f"{v['scope'] or v['lines']} (model drift, the C07 laws hold)")
+    R.cov["engine_traces"] = len(traces)
+    R.cov["engine_events"] = sum(len(t["events"]) for t in traces)
 
 
 def replay(pid, path):
